@@ -9,6 +9,7 @@ wt="$(readlink -f "$1")"; sc="$2"; id="$3"; shift 3
 mkdir -p "$sc"
 rsync -a --delete --exclude target /verif/harness/ "$sc/harness/"
 cp /verif/known_findings.json "$sc/" 2>/dev/null || true
+rm -rf "$sc/known"; cp -r /verif/known "$sc/known" 2>/dev/null || true
 sed -i "s#\"/repo/#\"$wt/#g" "$sc/harness/checks/Cargo.toml"
 sed -i "s#/verif/target#$sc/target#" "$sc/harness/.cargo/config.toml"
 bin="$(echo "$id" | tr 'A-Z' 'a-z')"
